@@ -5,6 +5,7 @@ import (
 	"encoding/hex"
 	"encoding/json"
 	"fmt"
+	"sync"
 	"time"
 
 	"gitee.com/Trisia/gotlcp/dtlcp"
@@ -24,7 +25,7 @@ func init() { Register(c10{}) }
 type c10Op struct {
 	// Late (ruin): the transport ends right before the server's ChangeCipherSpec instead of at once - in a
 	// full handshake the client has sent its Finished by then and may already have stored the new session
-	Late bool `json:"late,omitempty"`
+	Late   bool     `json:"late,omitempty"`
 	Op     string   `json:"op"` // connect | restart | client-suites | server-suites | forged | ruin
 	Server int      `json:"server"`
 	Suites []uint16 `json:"suites,omitempty"`
@@ -38,12 +39,58 @@ type c10Params struct {
 	// ClientCap: capacity of the client's session cache (0 = 64). With a single server the latest session stays
 	// reachable under the server's address whatever the capacity, so the predictions do not change.
 	ClientCap int `json:"client_cap,omitempty"`
+	// PlainCaches: the servers use an application-supplied SessionCache (a map behind a mutex that hands out the
+	// very object it was given) instead of the built-in LRU
+	PlainCaches bool `json:"plain_caches,omitempty"`
+}
+
+// plainT / plainD: the simplest SessionCache an application could write.
+type plainT struct {
+	mu sync.Mutex
+	m  map[string]*tlcp.SessionState
+}
+
+func (p *plainT) Get(k string) (*tlcp.SessionState, bool) {
+	p.mu.Lock()
+	defer p.mu.Unlock()
+	s, ok := p.m[k]
+	return s, ok && s != nil
+}
+func (p *plainT) Put(k string, s *tlcp.SessionState) {
+	p.mu.Lock()
+	defer p.mu.Unlock()
+	if s == nil {
+		delete(p.m, k)
+		return
+	}
+	p.m[k] = s
+}
+
+type plainD struct {
+	mu sync.Mutex
+	m  map[string]*dtlcp.SessionState
+}
+
+func (p *plainD) Get(k string) (*dtlcp.SessionState, bool) {
+	p.mu.Lock()
+	defer p.mu.Unlock()
+	s, ok := p.m[k]
+	return s, ok && s != nil
+}
+func (p *plainD) Put(k string, s *dtlcp.SessionState) {
+	p.mu.Lock()
+	defer p.mu.Unlock()
+	if s == nil {
+		delete(p.m, k)
+		return
+	}
+	p.m[k] = s
 }
 
 func (c10) ID() string    { return "C10" }
 func (c10) Level() string { return "exploration" }
 func (c10) Rule() string {
-	return "each case is a history drawn from the seed over one client configuration (one session cache) and 1-3 real servers at distinct addresses (one cache each): connect (handshake + echo), server loses its cache (restart), client or server changes its enabled suites, a scripted client offers a forged or stale session id, a handshake is ruined (transport cut at once / peer gone, or - \"late\" - the server's ChangeCipherSpec and Finished never arrive), servers and client move to another CA (cached sessions no longer verify; and back); with or without client certificates; client cache capacity 64, or 1-2 with a single server; both stacks. A reference model of the caches predicts for every connection whether it resumes. Oracle: DidResume on both sides equals the prediction and every honest connection succeeds; a resumed connection reports the original peer certificates on both sides (also to the VerifyConnection callbacks) and has fresh randoms and Finished values; new session ids are 32 bytes and unique in the history; after a ruined handshake the next ClientHello to that server carries no session id (wire). distinct = distinct histories; non-trivial = at least one resumption and one non-trivial event (restart, reconfiguration, forged id, ruin)"
+	return "each case is a history drawn from the seed over one client configuration (one session cache) and 1-3 real servers at distinct addresses (one cache each): connect (handshake + echo), server loses its cache (restart), client or server changes its enabled suites, a scripted client offers a forged or stale session id, a handshake is ruined (transport cut at once / peer gone, or - \"late\" - the server's ChangeCipherSpec and Finished never arrive), servers and client move to another CA (cached sessions no longer verify; and back); with or without client certificates; client cache capacity 64, or 1-2 with a single server; server caches the built-in LRU or an application-supplied map that hands out the object it was given; both stacks. A reference model of the caches predicts for every connection whether it resumes. Oracle: DidResume on both sides equals the prediction and every honest connection succeeds; a resumed connection reports the original peer certificates on both sides (also to the VerifyConnection callbacks) and has fresh randoms and Finished values; new session ids are 32 bytes and unique in the history; after a ruined handshake the next ClientHello to that server carries no session id (wire). distinct = distinct histories; non-trivial = at least one resumption and one non-trivial event (restart, reconfiguration, forged id, ruin)"
 }
 func (c10) Components() (real, stub []string) {
 	return []string{"tlcp/dtlcp client and servers (instrumented): loadSession, checkForResumption, session creation and cleanup, lruSessionCache"},
@@ -101,6 +148,7 @@ func drawC10(src *vs.Src) *c10Params {
 	if p.Servers == 1 && src.Bool(1, 2) {
 		p.ClientCap = 1 + src.Intn(2)
 	}
+	p.PlainCaches = src.Bool(1, 3)
 	return p
 }
 
@@ -137,8 +185,14 @@ func (c10) Run(c *Case, src *vs.Src) *Result {
 	}
 	tcC, dcC := tlcp.NewLRUSessionCache(ccap), dtlcp.NewLRUSessionCache(ccap)
 	tcS, dcS := make([]tlcp.SessionCache, p.Servers), make([]dtlcp.SessionCache, p.Servers)
+	newServerCaches := func() (tlcp.SessionCache, dtlcp.SessionCache) {
+		if p.PlainCaches {
+			return &plainT{m: map[string]*tlcp.SessionState{}}, &plainD{m: map[string]*dtlcp.SessionState{}}
+		}
+		return tlcp.NewLRUSessionCache(64), dtlcp.NewLRUSessionCache(64)
+	}
 	for i := range tcS {
-		tcS[i], dcS[i] = tlcp.NewLRUSessionCache(64), dtlcp.NewLRUSessionCache(64)
+		tcS[i], dcS[i] = newServerCaches()
 	}
 	clientSuites := []uint16(nil)
 	serverSuites := make([][]uint16, p.Servers)
@@ -149,7 +203,7 @@ func (c10) Run(c *Case, src *vs.Src) *Result {
 		serverHas[i] = map[string]*c10Session{}
 	}
 	allIDs := map[string]bool{}
-	mustNotOffer := map[int]bool{} // destination whose last handshake (offering a session) was ruined
+	mustNotOffer := map[int]bool{}    // destination whose last handshake (offering a session) was ruined
 	neverOffer := map[string]string{} // session ids issued in handshakes that ended in a fatal error
 	nResumed, nEvents := 0, 0
 	certSet := 0
@@ -157,7 +211,7 @@ func (c10) Run(c *Case, src *vs.Src) *Result {
 		tag := fmt.Sprintf("op#%d %s(server %d)", n, op.Op, op.Server)
 		switch op.Op {
 		case "restart":
-			tcS[op.Server], dcS[op.Server] = tlcp.NewLRUSessionCache(64), dtlcp.NewLRUSessionCache(64)
+			tcS[op.Server], dcS[op.Server] = newServerCaches()
 			serverHas[op.Server] = map[string]*c10Session{}
 			nEvents++
 			continue
